@@ -247,6 +247,13 @@ def fw_cases():
             for ep in ("initiate", "resource"):
                 for m in ALL_METHODS:
                     out.append({"fw": fw, "configured": conf, "as_tuple": True, "ep": ep, "method": m})
+        if fw == "django":
+            # Django settings are plain Python: any collection of method names configures the server
+            for kind in ("set", "frozenset"):
+                for conf in (["RSA-SHA1"], ["PLAINTEXT", "RSA-SHA1"]):
+                    for ep in ("initiate",):          # (the Django resource protector documents and takes a list or tuple only)
+                        for m in ALL_METHODS:
+                            out.append({"fw": fw, "configured": conf, "as_kind": kind, "ep": ep, "method": m})
         # replays against the integrations' own nonce stores (a cache that honours its timeouts): the same signed request twice
         for ep in ("initiate", "resource"):
             for ahead in (0, 200, -200, 90000):
@@ -294,7 +301,7 @@ def fw_build(c):
     tok = mem1.TokenCred("tok-fw", "sec-fw", "ca", 1)
     conf = c["configured"]
     if conf is not None:
-        conf = tuple(conf) if c.get("as_tuple") else list(conf)
+        conf = tuple(conf) if c.get("as_tuple") else set(conf) if c.get("as_kind") == "set" else frozenset(conf) if c.get("as_kind") == "frozenset" else list(conf)
     if c["fw"] == "flask":
         from flask import Flask, jsonify
         from authlib.integrations.flask_oauth1 import AuthorizationServer, ResourceProtector
@@ -498,7 +505,7 @@ def classify(c, out):
 
 def nontrivial(c, out):
     if "fw" in c:
-        return [c["fw"], c["configured"], c.get("as_tuple"), c["ep"], c["method"], c.get("replay")]
+        return [c["fw"], c["configured"], c.get("as_tuple"), c.get("as_kind"), c["ep"], c["method"], c.get("replay")]
     return c["ops"]
 
 
